@@ -133,16 +133,15 @@ Final(k, f, st, len) ==
     ELSE IF st.pfx /\ st.nint = 0 /\ st.nfrac = 0 THEN [v |-> "U", why |-> "base prefix followed by no digits"]
     ELSE IF st.nint = 0 /\ st.nfrac = 0 /\ (st.msign # 0 \/ st.sepany) /\ ~f.required_mantissa_digits
          THEN [v |-> "U", why |-> "no digits at all and digits not required"]
-    (* ---- zones where the documentation contradicts itself (format_builder.rs): never judged ---- *)
-    (* required_integer_digits: the setter table lists "1." as invalid, its doctest parses it *)
-    ELSE IF isF /\ f.required_integer_digits /\ st.nint > 0 /\ st.hasPoint /\ st.nfrac = 0 /\ ~f.required_fraction_digits
-         THEN [v |-> "U", why |-> "docs disagree on '1.' under required_integer_digits"]
-    (* no_exponent_without_fraction: the getter table rejects "1.e3", setter table and doctest accept it; *)
-    (* the tables accept "1.1e", which the (default) required exponent digits reject                      *)
-    ELSE IF isF /\ f.no_exponent_without_fraction /\ st.hasExp /\ st.hasPoint /\ st.nfrac = 0
-         THEN [v |-> "U", why |-> "docs disagree on '1.e3' under no_exponent_without_fraction"]
-    ELSE IF isF /\ (f.no_exponent_without_fraction \/ (f.required_integer_digits /\ f.required_fraction_digits))
-            /\ st.hasExp /\ st.nexp = 0 /\ st.esign = 0 /\ f.required_exponent_digits /\ st.nfrac > 0
+    (* ---- where the documentation contradicts itself (format_builder.rs) the hidden doctest blocks, ---- *)
+    (* ---- which upstream executes in CI, decide; without a doctest the case is not judged:           ---- *)
+    (*  - required_integer_digits: the setter table lists "1." as invalid, its doctest parses it -> accepted  *)
+    (*  - no_exponent_without_fraction: the getter table rejects "1.e3", setter table and doctest accept it   *)
+    (*    -> accepted (the flag asks for a decimal point before the exponent)                                 *)
+    (*  - no_exponent_without_fraction: the tables list "1.1e" as valid although the default required        *)
+    (*    exponent digits reject it and no doctest covers it -> unspecified                                   *)
+    ELSE IF isF /\ f.no_exponent_without_fraction /\ st.hasExp /\ st.nexp = 0 /\ st.esign = 0
+            /\ f.required_exponent_digits /\ st.nfrac > 0
          THEN [v |-> "U", why |-> "tables accept '1.1e' although exponent digits are required"]
     ELSE IF isF /\ f.required_mantissa_digits /\ st.nint = 0 /\ st.nfrac = 0
          THEN [v |-> "R", why |-> "mantissa digits required"]
